@@ -90,6 +90,11 @@ func (c *AesCipher) Decrypt(cipherTextWithIv []byte) ([]byte, error) {
 		return nil, fmt.Errorf("failed to create GCM: %w", err)
 	}
 
+	// GCM panics on a nonce of the wrong length: reject it like any other malformed input.
+	if len(iv) != gcm.NonceSize() {
+		return nil, errors.New("invalid IV length")
+	}
+
 	// Decrypt the data
 	plainText, err := gcm.Open(nil, iv, cipherText, nil)
 	if err != nil {
